@@ -178,7 +178,7 @@ Proof. intros Hs Hf. induction rc as [|r t IH]; [reflexivity|]. cbn. now rewrite
    --------------------------------------------------------------------------------------------- *)
 Section World.
 Variable w : world.
-Hypothesis rc_nonempty : forall lvl, recipients w lvl <> [].
+Hypothesis rc_nonempty : forall lvl e, recipients w lvl e <> [].
 
 Lemma start_of_is_start sk : is_start (start_of sk) = true. Proof. now destruct sk. Qed.
 Lemma fin_of_is_fin sk : is_fin (fin_of sk) = true. Proof. now destruct sk. Qed.
@@ -186,7 +186,7 @@ Lemma fin_for_start sk : fin_for (start_of sk) = fin_of sk. Proof. now destruct 
 
 Lemma trace_sids p : wf p -> forall s, In s (step_sids (trace w p)) -> In s (ids p).
 Proof.
-  induction p as [| sid e | | p IHp q IHq | sid sk ex body IH]; cbn [trace ids wf]; intros Hwf s H.
+  induction p as [| sid e | | p IHp q IHq | sid sk ex body IH]; cbn [trace ids wf]; unfold eblock; intros Hwf s H.
   - destruct H.
   - destruct Hwf as [Hs Hf]. now rewrite (step_sids_block_other _ _ _ Hs Hf) in H.
   - destruct H.
@@ -201,7 +201,7 @@ Qed.
 Lemma trace_balanced p : wf p -> forall st,
   (forall s, In s (ids p) -> ~ In s (map fst st)) -> scan (trace w p) st = st.
 Proof.
-  induction p as [| sid e | | p IHp q IHq | sid sk ex body IH]; cbn [trace ids wf]; intros Hwf st Hd.
+  induction p as [| sid e | | p IHp q IHq | sid sk ex body IH]; cbn [trace ids wf]; unfold eblock; intros Hwf st Hd.
   - reflexivity.
   - destruct Hwf as [Hs Hf]. now apply scan_block_other.
   - reflexivity.
@@ -249,7 +249,7 @@ Qed.
 
 Lemma sim_emit sid e : is_start e = false -> is_fin e = false -> sim (PEmit sid e).
 Proof.
-  intros Hs Hf log. cbn [exec trace rets]. set (rc := recipients w (level_of sid)). repeat split.
+  intros Hs Hf log. cbn [exec trace rets]. unfold eblock. set (rc := recipients w (level_of sid) e). repeat split.
   - now rewrite deliver_none.
   - intros k H. rewrite block_length in H. now rewrite deliver_out.
   - rewrite block_length in H. rewrite deliver_in by exact H. cbn. unfold cut.
@@ -299,17 +299,21 @@ Qed.
 Lemma sim_step sid sk ex body :
   ~ In sid (ids body) -> wf body -> ex <> UserAbort -> sim body -> sim (PStep sid sk ex body).
 Proof.
-  intros Hn Hwb Hex Hb log. cbn [exec trace rets].
-  set (rc := recipients w (level_of sid)).
-  assert (Hrc : rc <> []) by apply rc_nonempty.
-  set (bs := block rc sid (start_of sk)). set (bf := block rc sid (fin_of sk)).
-  assert (Lbs : length bs = length rc) by apply block_length.
-  assert (Lbf : length bf = length rc) by apply block_length.
-  assert (Hpos : 0 < length rc) by (destruct rc; [congruence | cbn; lia]).
+  intros Hn Hwb Hex Hb log. cbn [exec trace rets]. unfold eblock.
+  set (rcs := recipients w (level_of sid) (start_of sk)). set (rcf := recipients w (level_of sid) (fin_of sk)).
+  assert (Hrcs : rcs <> []) by apply rc_nonempty.
+  assert (Hrcf : rcf <> []) by apply rc_nonempty.
+  set (bs := block rcs sid (start_of sk)). set (bf := block rcf sid (fin_of sk)).
+  assert (Lbs : length bs = length rcs) by apply block_length.
+  assert (Lbf : length bf = length rcf) by apply block_length.
+  assert (Hposs : 0 < length rcs) by (destruct rcs; [congruence | cbn; lia]).
+  assert (Hposf : 0 < length rcf) by (destruct rcf; [congruence | cbn; lia]).
   assert (Hnab : is_abort ex = false) by (destruct ex; try reflexivity; congruence).
   destruct (Hb (log ++ bs)) as (Hb0 & Hb1 & Hb2). rewrite app_length, Lbs in Hb1, Hb2.
   assert (Hbal : scan (trace w body) [(sid, fin_of sk)] = [(sid, fin_of sk)]).
   { apply trace_balanced; [exact Hwb|]. intros s Hs [E|[]]. cbn in E. subst s. contradiction. }
+  assert (Hclo : closure w [(sid, fin_of sk)] = bf).
+  { unfold closure. cbn. now rewrite app_nil_r. }
   repeat split.
   - (* nobody aborts *)
     rewrite deliver_none. fold bs. rewrite Hb0. rewrite deliver_none. fold bf.
@@ -321,8 +325,8 @@ Proof.
     rewrite Hnab. now rewrite <- !app_assoc.
   - (* abort inside: the log *)
     rewrite !app_length, Lbs, Lbf in H.
-    destruct (le_lt_dec (length log + length rc) k) as [H1|H1].
-    + destruct (le_lt_dec (length log + length rc + length (trace w body)) k) as [H2|H2].
+    destruct (le_lt_dec (length log + length rcs) k) as [H1|H1].
+    + destruct (le_lt_dec (length log + length rcs + length (trace w body)) k) as [H2|H2].
       * (* while FINISHED is delivered: plain prefix *)
         rewrite deliver_out by lia. fold bs. rewrite Hb1 by lia.
         rewrite deliver_in by (rewrite !app_length, Lbs; lia). fold bf. cbn [fst snd].
@@ -331,13 +335,13 @@ Proof.
         rewrite firstn_app_ge by lia. rewrite <- app_assoc. f_equal.
         rewrite firstn_app_ge by lia. rewrite <- app_assoc. f_equal.
         replace (S (k - length log) - length bs - length (trace w body))
-          with (S (k - (length log + length rc + length (trace w body)))) by lia.
-        set (j := S (k - (length log + length rc + length (trace w body)))).
+          with (S (k - (length log + length rcs + length (trace w body)))) by lia.
+        set (j := S (k - (length log + length rcs + length (trace w body)))).
         rewrite !scan_app.
-        unfold bs at 1. rewrite (scan_block_start rc sid (start_of sk) []); [| exact Hrc | apply start_of_is_start | intros []].
+        unfold bs at 1. rewrite (scan_block_start rcs sid (start_of sk) []); [| exact Hrcs | apply start_of_is_start | intros []].
         rewrite fin_for_start, Hbal. unfold bf. rewrite firstn_block.
         rewrite scan_block_fin; [cbn; now rewrite app_nil_r | | apply fin_of_is_fin | intros []].
-        subst j. destruct rc; [congruence|]. rewrite firstn_S_cons. discriminate.
+        subst j. destruct rcf; [congruence|]. rewrite firstn_S_cons. discriminate.
       * (* inside the body *)
         rewrite deliver_out by lia. fold bs.
         destruct (Hb2 k ltac:(lia)) as (Hl & Hr & _).
@@ -347,17 +351,17 @@ Proof.
         fold bf. cbn [fst snd]. unfold cut.
         rewrite <- !app_assoc. f_equal.
         rewrite firstn_app_ge by lia. rewrite <- app_assoc. f_equal.
-        replace (S (k - length log) - length bs) with (S (k - (length log + length rc))) by lia.
-        set (j := S (k - (length log + length rc))).
+        replace (S (k - length log) - length bs) with (S (k - (length log + length rcs))) by lia.
+        set (j := S (k - (length log + length rcs))).
         rewrite firstn_app_le by (subst j; lia).
         f_equal.
         rewrite scan_app.
-        unfold bs at 1. rewrite (scan_block_start rc sid (start_of sk) []); [| exact Hrc | apply start_of_is_start | intros []].
+        unfold bs at 1. rewrite (scan_block_start rcs sid (start_of sk) []); [| exact Hrcs | apply start_of_is_start | intros []].
         rewrite fin_for_start.
         rewrite (scan_base0 (firstn j (trace w body)) [(sid, fin_of sk)]).
         2:{ intros s Hs [E|[]]. cbn in E. subst s. apply Hn.
             apply (trace_sids body Hwb). exact (step_sids_firstn_incl _ _ _ Hs). }
-        rewrite closure_app. f_equal. cbn. now rewrite app_nil_r.
+        rewrite closure_app. f_equal. symmetry. exact Hclo.
     + (* while START is delivered *)
       rewrite deliver_in by lia. fold bs. cbn [fst snd].
       rewrite deliver_out.
@@ -367,38 +371,38 @@ Proof.
       rewrite firstn_app_le by lia. f_equal.
       unfold bs. rewrite firstn_block.
       rewrite scan_block_start; [| | apply start_of_is_start | intros []].
-      * rewrite fin_for_start. cbn. now rewrite app_nil_r.
-      * destruct rc; [congruence|]. rewrite firstn_S_cons. discriminate.
+      * rewrite fin_for_start. symmetry. exact Hclo.
+      * destruct rcs; [congruence|]. rewrite firstn_S_cons. discriminate.
   - (* abort inside: it is reported *)
     rewrite !app_length, Lbs, Lbf in H.
-    destruct (le_lt_dec (length log + length rc) k) as [H1|H1].
-    + destruct (le_lt_dec (length log + length rc + length (trace w body)) k) as [H2|H2].
+    destruct (le_lt_dec (length log + length rcs) k) as [H1|H1].
+    + destruct (le_lt_dec (length log + length rcs + length (trace w body)) k) as [H2|H2].
       * rewrite deliver_out by lia. fold bs. rewrite Hb1 by lia.
         rewrite deliver_in by (rewrite !app_length, Lbs; lia). reflexivity.
       * rewrite deliver_out by lia. fold bs.
         destruct (Hb2 k ltac:(lia)) as (Hl & Hr & _).
         destruct (exec w body (Some k) (log ++ bs)) as [[l1 r1] x1]. cbn [fst snd] in Hl, Hr. subst r1.
-        destruct (deliver (Some k) rc sid (fin_of sk) l1) as [l2 r2]. cbn. now destruct r2.
+        destruct (deliver (Some k) rcf sid (fin_of sk) l1) as [l2 r2]. cbn. now destruct r2.
     + rewrite deliver_in by lia. cbn [fst snd].
-      destruct (deliver (Some k) rc sid (fin_of sk) (log ++ firstn (S (k - length log)) (block rc sid (start_of sk)))) as [l2 r2].
+      destruct (deliver (Some k) rcf sid (fin_of sk) (log ++ firstn (S (k - length log)) (block rcs sid (start_of sk)))) as [l2 r2].
       cbn. now destruct r2.
   - (* abort inside: exit codes *)
-    rewrite !app_length, Lbs, Lbf in H. cbn [arets]. fold rc.
-    destruct (le_lt_dec (length log + length rc) k) as [H1|H1].
-    + destruct (Nat.ltb_spec (k - length log) (length rc)); [lia|].
-      destruct (le_lt_dec (length log + length rc + length (trace w body)) k) as [H2|H2].
-      * destruct (Nat.ltb_spec (k - length log) (length rc + length (trace w body))); [lia|].
+    rewrite !app_length, Lbs, Lbf in H. cbn [arets]. fold rcs. unfold eblock. fold rcs.
+    destruct (le_lt_dec (length log + length rcs) k) as [H1|H1].
+    + destruct (Nat.ltb_spec (k - length log) (length rcs)); [lia|].
+      destruct (le_lt_dec (length log + length rcs + length (trace w body)) k) as [H2|H2].
+      * destruct (Nat.ltb_spec (k - length log) (length rcs + length (trace w body))); [lia|].
         rewrite deliver_out by lia. fold bs. rewrite Hb1 by lia.
         rewrite deliver_in by (rewrite !app_length, Lbs; lia). reflexivity.
-      * destruct (Nat.ltb_spec (k - length log) (length rc + length (trace w body))); [|lia].
+      * destruct (Nat.ltb_spec (k - length log) (length rcs + length (trace w body))); [|lia].
         rewrite deliver_out by lia. fold bs.
         destruct (Hb2 k ltac:(lia)) as (Hl & Hr & Hx).
         destruct (exec w body (Some k) (log ++ bs)) as [[l1 r1] x1]. cbn [fst snd] in Hl, Hr, Hx. subst r1 x1.
-        destruct (deliver (Some k) rc sid (fin_of sk) l1) as [l2 r2]. cbn.
-        replace (k - length log - length rc) with (k - (length log + length rc)) by lia. now destruct r2.
-    + destruct (Nat.ltb_spec (k - length log) (length rc)); [|lia].
+        destruct (deliver (Some k) rcf sid (fin_of sk) l1) as [l2 r2]. cbn.
+        replace (k - length log - length rcs) with (k - (length log + length rcs)) by lia. now destruct r2.
+    + destruct (Nat.ltb_spec (k - length log) (length rcs)); [|lia].
       rewrite deliver_in by lia. cbn [fst snd].
-      destruct (deliver (Some k) rc sid (fin_of sk) (log ++ firstn (S (k - length log)) (block rc sid (start_of sk)))) as [l2 r2].
+      destruct (deliver (Some k) rcf sid (fin_of sk) (log ++ firstn (S (k - length log)) (block rcs sid (start_of sk)))) as [l2 r2].
       cbn. now destruct r2.
 Qed.
 
@@ -419,7 +423,7 @@ End World.
    --------------------------------------------------------------------------------------------- *)
 Section Top.
 Variable w : world.
-Hypothesis rc_nonempty : forall lvl, recipients w lvl <> [].
+Hypothesis rc_nonempty : forall lvl e, recipients w lvl e <> [].
 
 Definition full_log (ps : list prog) : list entry := flat_map (trace w) ps.
 
@@ -522,9 +526,9 @@ Proof. cbn [arets]. eexists. reflexivity. Qed.
 Lemma exec_step_raised w sid sk ex body k log l x :
   exec w (PStep sid sk ex body) k log = (l, true, x) -> exists x', x = x' ++ [(sid, UserAbort)].
 Proof.
-  cbn [exec]. destruct (deliver k (recipients w (level_of sid)) sid (start_of sk) log) as [l0 r0].
+  cbn [exec]. destruct (deliver k (recipients w (level_of sid) (start_of sk)) sid (start_of sk) log) as [l0 r0].
   destruct (if r0 then (l0, true, []) else exec w body k l0) as [[l1 r1] x1].
-  destruct (deliver k (recipients w (level_of sid)) sid (fin_of sk) l1) as [l2 r2].
+  destruct (deliver k (recipients w (level_of sid) (fin_of sk)) sid (fin_of sk) l1) as [l2 r2].
   intros H. injection H as _ Hr <-. exists x1. f_equal. f_equal.
   destruct r2; [reflexivity|]. destruct r1; [reflexivity|]. destruct ex; cbn in Hr; congruence.
 Qed.
@@ -550,8 +554,8 @@ Lemma recipients_up_concat path obs : recipients_up path obs = concat path ++ ob
 Proof. induction path as [|h t IH]; [reflexivity|]. cbn. rewrite IH. now rewrite app_assoc. Qed.
 
 (* own handlers first, then the ancestors outward, the observers last *)
-Theorem recipients_order w lvl :
-  recipients w lvl = concat (rev (firstn (S lvl) (plans w))) ++ obsv w.
+Theorem recipients_order w lvl e :
+  recipients w lvl e = concat (rev (firstn (S lvl) (plans w))) ++ obsv w e.
 Proof. unfold recipients, path_of. apply recipients_up_concat. Qed.
 
 Lemma nodup_app_l {A} (a b : list A) : NoDup (a ++ b) -> NoDup a.
@@ -603,7 +607,7 @@ Proof.
 Qed.
 
 (* exactly once: distinct handlers and observers give a duplicate-free recipient list *)
-Theorem recipients_nodup w lvl : NoDup (concat (plans w) ++ obsv w) -> NoDup (recipients w lvl).
+Theorem recipients_nodup w lvl e : NoDup (concat (plans w) ++ obsv w e) -> NoDup (recipients w lvl e).
 Proof.
   intros H. rewrite recipients_order.
   apply nodup_app_intro.
@@ -614,15 +618,15 @@ Proof.
 Qed.
 
 (* membership: the handlers of the emitting plan and of its ancestors, and the observers *)
-Theorem recipients_members w lvl r :
-  In r (recipients w lvl) <-> In r (concat (firstn (S lvl) (plans w))) \/ In r (obsv w).
+Theorem recipients_members w lvl e r :
+  In r (recipients w lvl e) <-> In r (concat (firstn (S lvl) (plans w))) \/ In r (obsv w e).
 Proof.
   rewrite recipients_order, in_app_iff. now rewrite concat_rev_incl.
 Qed.
 
 (* an event that nobody aborts is delivered as one contiguous block, once to every recipient *)
 Theorem emit_delivery w sid e log :
-  exec w (PEmit sid e) None log = (log ++ block (recipients w (level_of sid)) sid e, false, []).
+  exec w (PEmit sid e) None log = (log ++ eblock w sid e, false, []).
 Proof. cbn [exec]. now rewrite deliver_none. Qed.
 
 Lemma count_block_once rc sid e r : NoDup rc -> In r rc ->
